@@ -41,8 +41,11 @@ class World:
         self.O1 = M.MeteredOnRamp(3000.0, name="O1")
         self.O1b = M.MainstreamOrigin(name="O1b")
         self.O2 = M.SimplifiedMeteredOnRamp(2000.0, name="O2")
-        self.D1 = M.CongestedDestination(name="D1")
+        # kinds vary between worlds (elements with only disturbances / only states / no variables)
+        self.D1 = (M.CongestedDestination if rng.random() < 0.6 else M.Destination)(name="D1")
+        self.D1b = (M.CongestedDestination if rng.random() < 0.7 else M.Destination)(name="D1b")
         self.D2 = M.Destination(name="D2")
+        self.D2b = M.CongestedDestination(name="D2b")
         self.net = M.Network().add_path((self.N[0], self.L1, self.N[1], self.L2, self.N[2], self.L0, self.N[5]),
                                         origin=self.O1, destination=self.D1)
         # model
@@ -140,6 +143,13 @@ class World:
 
     def op_replace_origin(self):
         self.net.add_origin(self.O1b, self.N[0])
+
+    def op_replace_dest(self):
+        self.net.add_destination(self.D1b, self.N[5])
+
+    def op_replace_branch_dest(self):
+        # only meaningful once the branch exists; otherwise it creates the branch with D2b directly
+        self.net.add_link(self.N[1], self.L3, self.N[3]).add_destination(self.D2b, self.N[3])
 
     def op_replace_link(self):
         self.net.add_link(self.N[0], self.L1b, self.N[1])
@@ -243,7 +253,7 @@ def observe_compile(W_, rec, ctxhist):
 
 
 OPS = ("init", "init", "reinit_same", "stepel", "stepel", "netstep", "netstep", "compile", "compile",
-       "add_branch", "add_ramp", "replace_origin", "replace_link")
+       "add_branch", "add_ramp", "replace_origin", "replace_link", "replace_dest", "replace_branch_dest")
 
 
 def apply(W_, rec, op, arg=None):
@@ -297,6 +307,10 @@ def run(M, rec, tier, seed, k, n):
         [("netstep", None), ("replace_origin", None), ("init", 3), ("stepel", 3), ("compile", None)],
         [("netstep", None), ("replace_link", None), ("netstep", None), ("add_branch", None), ("netstep", None), ("compile", None)],
         [("netstep", None), ("reinit_same", 0), ("compile", None)],
+        # a state-less element that declares a disturbance, attached after the last step
+        [("add_branch", None), ("netstep", None), ("replace_branch_dest", None), ("compile", None)],
+        [("netstep", None), ("replace_dest", None), ("compile", None)],
+        [("add_branch", None), ("netstep", None), ("replace_branch_dest", None), ("init", 7), ("stepel", 2), ("compile", None)],
     ]
     for j, seq in enumerate(scripted):
         for st in ("SX", "MX"):
@@ -307,7 +321,8 @@ def run(M, rec, tier, seed, k, n):
             rec.count("scripted_histories")
     # exhaustive short histories over a reduced alphabet, ending with compile
     small = [("netstep", None), ("init", 0), ("init", 1), ("init", 4), ("stepel", 0), ("stepel", 1), ("stepel", 3),
-             ("add_ramp", None), ("replace_origin", None), ("add_branch", None), ("replace_link", None), ("reinit_same", 0)]
+             ("add_ramp", None), ("replace_origin", None), ("add_branch", None), ("replace_link", None), ("reinit_same", 0),
+             ("replace_branch_dest", None), ("replace_dest", None)]
     depth = 3 if tier == "quick" else 4
     rec.extra["exhaustive_depth"] = depth
     i = 0
